@@ -67,27 +67,36 @@ Tick(d) ==
       post == [st EXCEPT !.clock = [@ EXCEPT !.ts = BAdd(@, BOfInt(d))]]
   IN Do(a, "ok", post, Obs(post, {}, {}, {}))
 
-Deposit(an, bn, amt) ==
-  LET a == [op |-> "deposit", acct |-> an, bank |-> bn, amount |-> amt]
-      b0 == st.banks[bn] ac == st.accts[an] g == st.groups[b0.group]
+\* lending_account_deposit as a function of the state: [r |-> "ok" or the error, post, obs]; with `upto` the amount is first cut
+\* down to the remaining deposit capacity, measured after the accrual (deposit.rs)
+DepositEval(an, bn, amt, upto) ==
+  LET b0 == st.banks[bn] ac == st.accts[an] g == st.groups[b0.group]
       te == TagsErr(b0, ac.bal) se == BankStateErr(b0, "PausedOrReduce")
-  IN IF te # "ok" THEN Fail(a, te)
-     ELSE IF se # "ok" THEN Fail(a, se)
-     ELSE IF Disabled(an) \/ InRecv(an) THEN Fail(a, "AccountDisabled")
+      F(err) == [r |-> err, post |-> st, obs |-> <<>>]
+  IN IF te # "ok" THEN F(te)
+     ELSE IF se # "ok" THEN F(se)
+     ELSE IF Disabled(an) \/ InRecv(an) THEN F("AccountDisabled")
      ELSE LET b1 == ImplAccrue(b0, g, Now) IN
-          IF IsErr(b1) THEN Fail(a, b1.err)
+          IF IsErr(b1) THEN F(b1.err)
+          ELSE LET cap == IF upto THEN RemainingDepositCapacity(b1) ELSE [v |-> BZero] IN
+          IF IsErr(cap) THEN F(cap.err)
+          ELSE LET dep == IF upto THEN BMin(BOfInt(amt), cap.v) ELSE BOfInt(amt) IN
           \* a zero deposit returns right after the accrual (no position, no transfer, no cache refresh)
-          ELSE IF amt = 0 THEN LET post0 == [st EXCEPT !.banks[bn] = b1] IN Do(a, "ok", post0, Obs(post0, {bn}, {an}, {}))
+          IF BIsZero(dep) THEN LET post0 == [st EXCEPT !.banks[bn] = b1] IN [r |-> "ok", post |-> post0, obs |-> Obs(post0, {bn}, {an}, {})]
           ELSE LET foc == FindOrCreate(ac.bal, bn, b1.key, b1.cfg.asset_tag, Now) IN
-               IF IsErr(foc) THEN Fail(a, foc.err)
-               ELSE LET r == ImplIncrease(b1, foc[1], foc[2], FOfInt(amt), "DepositOnly", Now) IN
-                    IF IsErr(r) THEN Fail(a, r.err)
-                    ELSE LET ut == UserTok(an, bn) have == TokOf(st, ut) pay == PreFee(MintOf(bn), BOfInt(amt)) IN
-                         IF BLt(have, pay) THEN Fail(a, "A1")
+               IF IsErr(foc) THEN F(foc.err)
+               ELSE LET r == ImplIncrease(b1, foc[1], foc[2], FOfBig(dep), "DepositOnly", Now) IN
+                    IF IsErr(r) THEN F(r.err)
+                    ELSE LET ut == UserTok(an, bn) have == TokOf(st, ut) pay == PreFee(MintOf(bn), dep) IN
+                         IF BLt(have, pay) THEN F("A1")
                          ELSE LET b2 == ImplUpdateCache(r.b, Now)
                                   post == [st EXCEPT !.banks[bn] = b2, !.accts[an].bal = SortBal(r.bal),
                                                      !.tok = Xfer(@, MintOf(bn), ut, b2.vault_liq, pay)]
-                              IN Do(a, "ok", post, Obs(post, {bn}, {an}, {ut, b2.vault_liq}))
+                              IN [r |-> "ok", post |-> post, obs |-> Obs(post, {bn}, {an}, {ut, b2.vault_liq})]
+Deposit(an, bn, amt) ==
+  LET a == [op |-> "deposit", acct |-> an, bank |-> bn, amount |-> amt]
+      ev == DepositEval(an, bn, amt, FALSE)
+  IN IF ev.r = "ok" THEN Do(a, "ok", ev.post, ev.obs) ELSE Fail(a, ev.r)
 
 Repay(an, bn, amt, all) ==
   LET a == [op |-> "repay", acct |-> an, bank |-> bn, amount |-> amt, all |-> all]
@@ -109,31 +118,36 @@ Repay(an, bn, amt, all) ==
                                                         !.tok = Xfer(@, MintOf(bn), ut, b2.vault_liq, pay)]
                                  IN Do(a, "ok", post, Obs(post, {bn}, {an}, {ut, b2.vault_liq}))
 
-Withdraw(an, bn, amt, all) ==
-  LET a == [op |-> "withdraw", acct |-> an, bank |-> bn, amount |-> amt, all |-> all]
-      b0 == st.banks[bn] ac == st.accts[an] g == st.groups[b0.group]
+\* lending_account_withdraw as a function of the state: [r |-> "ok" or the error, post, obs]
+WithdrawEval(an, bn, amt, all) ==
+  LET b0 == st.banks[bn] ac == st.accts[an] g == st.groups[b0.group]
       se == BankStateErr(b0, "Paused")
-  IN IF Disabled(an) THEN Fail(a, "AccountDisabled")
-     ELSE IF se # "ok" THEN Fail(a, se)
+      F(err) == [r |-> err, post |-> st, obs |-> <<>>]
+  IN IF Disabled(an) THEN F("AccountDisabled")
+     ELSE IF se # "ok" THEN F(se)
      ELSE LET b1 == ImplAccrue(b0, g, Now) IN
-          IF IsErr(b1) THEN Fail(a, b1.err)
+          IF IsErr(b1) THEN F(b1.err)
           ELSE LET i == FindSlot(ac.bal, bn) IN
-               IF i = 0 THEN Fail(a, "BankAccountNotFound")
+               IF i = 0 THEN F("BankAccountNotFound")
                ELSE LET pre == PreFee(MintOf(bn), BOfInt(amt))
                         r == IF all THEN ImplWithdrawAll(b1, ac.bal, i, Now) ELSE ImplDecrease(b1, ac.bal, i, FOfBig(pre), "WithdrawOnly", Now) IN
-                    IF IsErr(r) THEN Fail(a, r.err)
+                    IF IsErr(r) THEN F(r.err)
                     ELSE LET pay == IF all THEN r.pay ELSE pre
                              vault == TokOf(st, b1.vault_liq)
-                         IN IF BLt(vault, pay) THEN Fail(a, "A1")
+                         IN IF BLt(vault, pay) THEN F("A1")
                             ELSE LET b2 == ImplUpdateCache(r.b, Now)
                                      bal2 == SortBal(r.bal)
                                      banks2 == [st.banks EXCEPT ![bn] = b2]
                                      h == ImplInitHealth(Px(banks2), bal2)
                                      ut == UserTok(an, bn)
-                                 IN IF h # "ok" THEN Fail(a, h)
+                                 IN IF h # "ok" THEN F(h)
                                     ELSE LET post == [st EXCEPT !.banks = banks2, !.accts[an].bal = bal2,
                                                         !.tok = Xfer(@, MintOf(bn), b2.vault_liq, ut, pay)]
-                                         IN Do(a, "ok", post, Obs(post, {bn}, {an}, {ut, b2.vault_liq}))
+                                         IN [r |-> "ok", post |-> post, obs |-> Obs(post, {bn}, {an}, {ut, b2.vault_liq})]
+Withdraw(an, bn, amt, all) ==
+  LET a == [op |-> "withdraw", acct |-> an, bank |-> bn, amount |-> amt, all |-> all]
+      ev == WithdrawEval(an, bn, amt, all)
+  IN IF ev.r = "ok" THEN Do(a, "ok", ev.post, ev.obs) ELSE Fail(a, ev.r)
 
 \* lending_account_borrow as a function of the state: [r |-> "ok" or the error, post, obs]
 BorrowEval(an, bn, amt) ==
